@@ -749,7 +749,7 @@ class Obs:
         if format_type == "":
             significance = 2
         else:
-            significance = int(float(format_type.replace("+", "").replace("-", "")))
+            significance = int(float(format_type.replace("+", "").replace("-", "").strip() or 2))
         my_str = _format_uncertainty(self.value, self._dvalue,
                                      significance=significance)
         for char in ["+", " "]:
@@ -1060,7 +1060,7 @@ class CObs:
             significance = 2
             format_type = "2"
         else:
-            significance = int(float(format_type.replace("+", "").replace("-", "")))
+            significance = int(float(format_type.replace("+", "").replace("-", "").strip() or 2))
         return f"({self.real:{format_type}}{self.imag:+{significance}}j)"
 
 
